@@ -51,6 +51,7 @@ func init() {
 	}})
 	specs = append(specs, Spec{ID: "C11", Level: "exploration", MinDistinct: 30, Engines: []Engine{
 		{Name: "seq", Pkg: "./mon/c11", Procs: 1},
+		{Name: "coop", Pkg: "./mon/c11", Env: []string{"VERIF_MODE=coop"}, Instr: []string{"core/flow/tc_warm_up.go"}},
 	}})
 	specs = append(specs, Spec{ID: "C12", Level: "exploration", MinDistinct: 1000, Engines: []Engine{
 		{Name: "coop", Pkg: "./mon/c12", Instr: []string{"core/circuitbreaker/circuit_breaker.go", "core/stat/base/leap_array.go"}},
